@@ -119,7 +119,7 @@ PROPS["C11"] = {
     "assumptions": ["float64 division and conversion are IEEE-754 round-to-nearest-even"],
 }
 PROPS["C19"] = {
-    "level_text": "Theorems: footnote numbering for every sequence of texts of arbitrary bytes (equal texts share a number, new text gets next number, list = distinct non-empty texts in first-citation order, no repetition); OID JSON token is quoted lowercase hex for any 20 bytes. Correspondence/judge: citations and footnote lines parsed back from the real table must be 1..k in first-citation order, all cited, distinct; JSON v1/v2 must be valid JSON with the expected key set for nasty names. `Pins.Footnote.dedup_by_text` (REGENERATED statements of Footnotes.CreateCitation): looked up and stored under the same key, new texts numbered len+1.",
+    "level_text": "`report_written_verbatim` (regenerated statements of git-sizer.go): the JSON document is written as an ARGUMENT of a constant format string and the table through io.WriteString, so no byte of a name is interpreted on its way out. Theorems: footnote numbering for every sequence of texts of arbitrary bytes (equal texts share a number, new text gets next number, list = distinct non-empty texts in first-citation order, no repetition); OID JSON token is quoted lowercase hex for any 20 bytes. Correspondence/judge: citations and footnote lines parsed back from the real table must be 1..k in first-citation order, all cited, distinct; JSON v1/v2 must be valid JSON with the expected key set for nasty names. `Pins.Footnote.dedup_by_text` (REGENERATED statements of Footnotes.CreateCitation): looked up and stored under the same key, new texts numbered len+1.",
     "level_note": "Trusted: encoding/json escaping (checked with json.Valid on every case, not proved). One recorded finding F13 (names unescaped in the table).",
     "technique": "Lean 4 proof (footnote numbering) + differential correspondence with table re-parsing",
     "modules": ["GitSizer.Props.C19", "GitSizer.Props.Pins.Footnote"],
